@@ -7,7 +7,7 @@ use std::time::Instant;
 #[cfg(feature = "verif-hooks")]
 use crate::verif_hooks::Instant;
 
-use console::{measure_text_width, Style};
+use console::{measure_text_width, AnsiCodeIterator, Style};
 #[cfg(feature = "unicode-segmentation")]
 use unicode_segmentation::UnicodeSegmentation;
 #[cfg(target_arch = "wasm32")]
@@ -719,16 +719,41 @@ impl fmt::Display for PaddedStringDisplay<'_> {
         if excess > 0 && !self.truncate {
             return f.write_str(self.str);
         } else if excess > 0 {
+            // The range of terminal columns to keep
             let (start, end) = match self.align {
-                Alignment::Left => (0, self.str.len() - excess),
-                Alignment::Right => (excess, self.str.len()),
-                Alignment::Center => (
-                    excess / 2,
-                    self.str.len() - excess.saturating_sub(excess / 2),
-                ),
+                Alignment::Left => (0, self.width),
+                Alignment::Right => (excess, cols),
+                Alignment::Center => (excess / 2, excess / 2 + self.width),
             };
 
-            return f.write_str(self.str.get(start..end).unwrap_or(self.str));
+            // Columns and bytes are not the same thing: walk over the characters, keep the
+            // escape sequences (they take no room but carry the styling) and replace a wide
+            // character that is cut in half by blanks.
+            let mut col = 0;
+            for (piece, is_ansi) in AnsiCodeIterator::new(self.str) {
+                if is_ansi {
+                    f.write_str(piece)?;
+                    continue;
+                }
+                for c in piece.chars() {
+                    let width = measure(c.encode_utf8(&mut [0; 4]));
+                    let (from, to) = (col.max(start), (col + width).min(end));
+                    if width == 0 {
+                        // A combining mark goes with the character before it
+                        if col > start && col <= end || col == 0 {
+                            f.write_char(c)?;
+                        }
+                    } else if col >= start && col + width <= end {
+                        f.write_char(c)?;
+                    } else {
+                        for _ in from..to {
+                            f.write_char(' ')?;
+                        }
+                    }
+                    col += width;
+                }
+            }
+            return Ok(());
         }
 
         let diff = self.width.saturating_sub(cols);
